@@ -290,6 +290,9 @@ def match_link_title(string, offset):
             escaped = True
         elif c == closing and not escaped:
             return offset, i + 1, string[offset + 1:i]
+        elif c == '(' and closing == ')' and not escaped:
+            # a title in parentheses may contain a parenthesis only if it is escaped
+            return None
         elif escaped:
             escaped = False
     return None
